@@ -551,7 +551,7 @@ func (fv *FV) elemPtr(a, i Term) Term {
 	if et == nil {
 		fv.sfail("pointer to an element of a non-slice")
 	}
-	return Term{S: fmt.Sprintf("(mk-eptr (sbase %s) (+ (soff %s) %s))", a.S, a.S, i.S), Sort: "ElemPtr", T: types.NewPointer(et)}
+	return Term{S: fmt.Sprintf("(mk-eptr (sbase %s) (+ (soff %s) %s))", a.S, a.S, i.S), Sort: "ElemPtr", T: types.NewPointer(et), Room: app("-", "(slen "+a.S+")", i.S)}
 }
 
 func (fv *FV) fieldPtr(st *State, base Term, name string, t types.Type) Term {
@@ -560,6 +560,17 @@ func (fv *FV) fieldPtr(st *State, base Term, name string, t types.Type) Term {
 }
 
 func (fv *FV) derefRead(st *State, p Term, pos token.Pos) Term {
+	if p.Sort == "ElemPtr" && p.Word {
+		// unsafe 64-bit load from a byte slice: the 8 adjacent bytes, little-endian (model of the word load: trusted)
+		key, _ := fv.elemComp(types.Typ[types.Uint8])
+		a := sel(fv.heapGet(st, key), "(epbase "+p.S+")")
+		v := sel(a, app("+", "(epidx "+p.S+")", "7"))
+		for k := 6; k >= 0; k-- {
+			v = app("concat", v, sel(a, app("+", "(epidx "+p.S+")", fmt.Sprint(k))))
+		}
+		fv.assumptions["unsafe word access *(*uint64)(unsafe.Pointer(&data[i])) is modelled as the 8 adjacent bytes data[i..i+7] (little-endian), with the obligation i+8 <= len(data)"] = true
+		return fv.nameTerm(st, "word", Term{S: v, Sort: sBV64, T: types.Typ[types.Uint64]})
+	}
 	if p.Sort == "ElemPtr" {
 		et := p.T.Underlying().(*types.Pointer).Elem()
 		key, _ := fv.elemComp(et)
